@@ -70,12 +70,14 @@ def run_shards(modname, shards, procs=16, env=None):
     out = []
     pools = []
     asyncs = []
-    per = max(1, procs // max(1, len(groups))) if len(groups) > 1 else procs
+    total = sum(len(ds) for ds in groups.values()) or 1
     for key, ds in groups.items():
         e = json.loads(key)
         maxtasks = None
         if any(isinstance(d, dict) and d.get("_fresh") for d in ds):
             maxtasks = 1
+        # processes proportional to the group's share of the shards (at least one)
+        per = procs if len(groups) == 1 else max(1, round(procs * len(ds) / total))
         p = _pool(min(per, len(ds)) or 1, e, maxtasks)
         pools.append(p)
         asyncs.append(p.imap_unordered(_call, [(modname, "run_shard", d) for d in ds], chunksize=1))
